@@ -350,7 +350,12 @@ def step (s : St) (kind : String) (args impl : List String) : Option (St × Step
       | .op _, none => none
       | l, _ => some l
     pure ({ s with preMem := s.mem, preFs := s.fs, lastOp := lop', lastName := name, realPlan := [], planBad := false,
-                   planMsg := [], monPre := s.implCur,
+                   planMsg := [],
+                   -- a constructor run on a tree nobody reported on yet (an `fs` record): what the uninterrupted
+                   -- run lists is what a run cut off anywhere, followed by another start, must list
+                   monPre := (match lop, s.implCur with
+                     | .reboot _, none => if live then some (iblobs (implToks.drop 1)) else none
+                     | _, cur => cur),
                    monPost := if live then some (iblobs (implToks.drop 1)) else none }, { branch := "begin" })
   | "op" => do
     let lop ← op? args
